@@ -569,7 +569,19 @@ impl<'a> Gen<'a> {
                 }
                 8..=9 if self.k.for_loops && depth < 3 => self.for_block(depth, budget),
                 10 if self.k.gosub && !self.sub_entries.is_empty() => {
-                    self.push_line(vec![Stmt::Gosub(u64::MAX)]);
+                    // alone on its line, or with statements before / behind it (RETURN comes back mid-line)
+                    let mut l = vec![];
+                    if self.k.multi_stmt && self.rng.chance(1, 4) {
+                        l.push(self.simple());
+                    }
+                    l.push(Stmt::Gosub(u64::MAX));
+                    if self.k.multi_stmt && self.rng.chance(1, 2) {
+                        l.push(self.simple());
+                        if self.rng.chance(1, 4) {
+                            l.push(Stmt::Gosub(u64::MAX));
+                        }
+                    }
+                    self.push_line(l);
                 }
                 11 if self.k.data => {
                     let n = 1 + self.rng.usize(4);
